@@ -4,3 +4,4 @@ From Coq Require Import String.
 Definition check_struct_src (c : role * enzyme * string * string * string) : bool := true.
 Definition check_transcribe_src (c : string * string) : bool := true.
 Definition check_resistance_src (c : list (option (list string)) * option string) : bool := true.
+Definition check_re_read (c : string * pattern) : bool := true.
